@@ -63,7 +63,8 @@ Definition table_of (rf : raw_file) : outcome symtab := build_symtab rf.
 
 (* second pass: the same with every FUNC block finished by the function COMPILED from the Line::Function arm of
    SymbolParser::finish_item (Gen/C11Src.v src_finish_function: `cur` as the FUNC line leaves it — no lines, no inlinees —
-   then the block's line records and INLINE ranges); the rest of SymbolParser::finish as in build_symtab.
+   then the block's line records and INLINE ranges) and every STACK WIN record filed by the compiled insert_win_stack_info;
+   the rest of SymbolParser::finish as in build_symtab.
    c11_compiled_build_symtab: equal to build_symtab on every wf_file; the glue prints this table and flags a difference *)
 Fixpoint src_finish_funcs (p : profile) (acc : list (range * func)) (l : list func_raw) : outcome (list (range * func)) :=
   match l with
@@ -73,11 +74,17 @@ Fixpoint src_finish_funcs (p : profile) (acc : list (range * func)) (l : list fu
                                      (fr_lines fr) (fr_inls fr);
       src_finish_funcs p acc' t
   end.
+(* the STACK WIN vectors, record by record through the compiled insert_win_stack_info *)
+Fixpoint src_win_collect (p : profile) (v : list (range * win_rec)) (ws : list win_rec) : outcome (list (range * win_rec)) :=
+  match ws with
+  | [] => Ret v
+  | w :: t => do v' <- src_insert_win_stack_info p v w; src_win_collect p v' t
+  end.
 Definition table_of_src (p : profile) (rf : raw_file) : outcome symtab :=
   do fl <- src_finish_funcs p [] (rf_funcs rf);
   do funcs <- build_p func_eqb fl;
-  do wfd <- win_collect [] (rf_win_fd rf);
+  do wfd <- src_win_collect p [] (rf_win_fd rf);
   do tfd <- build_p win_eqb wfd;
-  do wfpo <- win_collect [] (rf_win_fpo rf);
+  do wfpo <- src_win_collect p [] (rf_win_fpo rf);
   do tfpo <- build_p win_eqb wfpo;
   Ret (mk_symtab (rf_files rf) (rf_origins rf) (sort_by pub_lt (rf_publics rf)) funcs tfd tfpo).
